@@ -42,7 +42,7 @@ func runLog(r *verifsim.Run) {
 	n := r.Range(3, 60)
 	var hist []byte
 	suppressed, reprinted := 0, 0
-	lastPrinted := ""
+	lastPrinted, printedAny := "", false
 	for i := 0; i < n; i++ {
 		var dt time.Duration
 		cls := r.Draw(7)
@@ -69,7 +69,7 @@ func runLog(r *verifsim.Run) {
 		letter := "abc%"[r.Pick(5, 2, 1, 1)]
 		var msg string
 		buf.Reset()
-		switch r.Draw(4) {
+		switch r.Draw(6) {
 		case 0:
 			msg = string(letter)
 			if letter == '%' {
@@ -90,10 +90,24 @@ func runLog(r *verifsim.Run) {
 		case 3:
 			msg = fmt.Sprintf("error: %v", string(letter))
 			lim.Print(msg)
+		case 4: // a format without operands, with and without an escaped per-cent sign; the empty format
+			format := []string{string(letter), "", "disk 100%% full", "%%", string(letter) + "%%"}[r.Draw(5)]
+			if letter == '%' && format == "%" {
+				format = "%%"
+			}
+			msg = fmt.Sprintf(format)
+			lim.Printf(format)
+			r.Probe("printf-without-operands")
+		case 5: // the empty message, and the text an operand-less format results in
+			msg = []string{"", "", "disk 100% full", "%"}[r.Draw(4)]
+			lim.Print(msg)
+			if msg == "" {
+				r.Probe("empty-message")
+			}
 		}
 		want := model.Arrive(msg, clock.T)
 		got := buf.String()
-		same := msg == lastPrinted
+		same := printedAny && msg == lastPrinted
 		r.Distinct("c20", fmt.Sprintf("dt%d:same%v:print%v", cls, same, want))
 		switch {
 		case want && got != msg+"\n":
@@ -120,7 +134,7 @@ func runLog(r *verifsim.Run) {
 					r.Probe("arrival-exactly-at-interval")
 				}
 			}
-			lastPrinted = msg
+			lastPrinted, printedAny = msg, true
 			if letter == '%' {
 				hist = append(hist, 'P')
 			} else {
